@@ -486,7 +486,6 @@ def _evaluate(case, o: Oracle, tab: L.Table, m: Mat, eff: int, tname: str) -> No
         return
     want = placed.image(m.pay, tab.pattern)
     present = placed.order()
-    n_real = len([n for n in present if n not in L.VALUE_SEGMENTS])
     header_only = not any(n in L.APP_SEGMENTS for n in present)
 
     o.label("mt:" + mt, _init_label(tab, req, eff), "pattern:" + tab.pattern, "init_as:%s" % ("name" if isinstance(req, str) else "number"))
